@@ -37,20 +37,6 @@ Section Sched.
   Variable step : state -> tid -> state.
   Definition run (sched : list tid) (s : state) : state := fold_left step sched s.
 
-  (* run thread t until `stop` holds, t stutters, or the fuel is used up *)
-  Fixpoint until (stop : state -> bool) (same : state -> state -> bool) (t : tid) (fuel : nat) (s : state) : state :=
-    match fuel with
-    | O => s
-    | S f => if stop s then s else
-             let s' := step s t in if same s s' then s else until stop same t f s'
-    end.
-
-  (* round-robin over the given threads until a whole round changes nothing (or fuel) *)
-  Fixpoint settle (same : state -> state -> bool) (ts : list tid) (fuel : nat) (s : state) : state :=
-    match fuel with
-    | O => s
-    | S f => let s' := run ts s in if same s s' then s else settle same ts f s'
-    end.
 End Sched.
 
 (* events of the observable log; all numbers are nat (indices, small block numbers) *)
@@ -618,3 +604,208 @@ Module Mx.
   Definition started (i : inner) : bool := match i_pc i with INew => false | _ => true end.
   Definition i_returned (i : inner) : bool := match i_pc i with INew | IRet => true | _ => false end.
 End Mx.
+
+(* ================================================================== FileSource (shutdown granularity)
+   filesource.go, only what matters for shutdown: every blocking point of every goroutine and whether it
+   has a Terminating arm.  Blocks are (number, answer of the handler).  Assumed: OpenObject / the dbin
+   header read succeed and return (their failure is property C11).
+     run():           for { select { case <-Terminating: return                       RSel
+                                     case f, ok := <-fileStream: (!ok -> return; f.err -> return err)
+                              for blk := range f.blocks {                              RRange k
+                                 if IsTerminating { return }                           RChk
+                                 handler(blk) (error -> return) } } }                  RInH
+     Run():           s.Shutdown(s.run())                                              RShut / RSdBusy
+     launchReader():  defer close(fileStream)
+                      for { select { case <-Terminating: return; case <-time.After(delay): }   LSel
+                            exists? no -> delay = retryDelay; continue                 LExists
+                            select { case <-Terminating: return; case fileStream <- f }        LSend
+                            go streamIncomingFile(f)                                   LGo
+                            stop block passed -> fileStream <- {err: stop}; return     LStop (plain send) }
+     file goroutine k (streamIncomingFile + streamReader's forwarder + preprocess, merged):
+                      open                                                             FOpening
+                      for { select { case <-Terminating: close(blocks); return         FStreaming
+                                     case blocks <- next block } }  EOF -> close(blocks)
+   `blocks` is unbuffered: f_slot is the block currently offered to run().  A select with several ready
+   arms is resolved by the scheduler (the bool carried by the thread id). *)
+Module Fs.
+  Inductive fsitem := FFile (k : nat) | FErr.
+  Inductive fpc := FLaunched | FOpening | FStreaming | FClosed.
+  Record fstate := mkf { f_pc : fpc; f_slot : option (nat * bool); f_left : list (nat * bool) }.
+  Inductive pc := RSel | RRange (k : nat) | RChk (k b : nat) (ok : bool) | RInH (k b : nat) (ok : bool)
+                | RShut | RSdBusy | RRet.
+  Inductive lpc := LSel | LExists | LSend | LGo | LStop | LDone.
+  Inductive xstate := XIdle | XBusy | XDone.
+  Inductive tid := TRun (c : bool) | TLaunch (c : bool) | TFile (k : nat) (c : bool) | TX.
+
+  Record state := mk {
+    pcr : pc;   (* FileSource.run (the Run thread) *)
+    pcl : lpc;   (* launchReader goroutine *)
+    pcx : xstate;   (* external Shutdown thread *)
+    sdst : option sdstage;   (* stage of the one effective Shutdown() *)
+    fsbuf : option fsitem;   (* s.fileStream (capacity 1) *)
+    fsclosed : bool;   (* close(s.fileStream) done by launchReader's defer *)
+    delayed : bool;   (* launchReader's next time.After has a positive delay (file did not exist) *)
+    files : list fstate;   (* the files sent on fileStream so far (thread TFile k streams number k) *)
+    store : list (list (nat * bool));   (* merged files still to be found in the store, with their blocks *)
+    stop_after : bool;   (* a stop block lies in the last file of the store *)
+    log : list ev;
+    hbegun : nat }.
+  Definition set_pcr (s : state) v := mk v (pcl s) (pcx s) (sdst s) (fsbuf s) (fsclosed s) (delayed s) (files s) (store s) (stop_after s) (log s) (hbegun s).
+  Definition set_pcl (s : state) v := mk (pcr s) v (pcx s) (sdst s) (fsbuf s) (fsclosed s) (delayed s) (files s) (store s) (stop_after s) (log s) (hbegun s).
+  Definition set_pcx (s : state) v := mk (pcr s) (pcl s) v (sdst s) (fsbuf s) (fsclosed s) (delayed s) (files s) (store s) (stop_after s) (log s) (hbegun s).
+  Definition set_sdst (s : state) v := mk (pcr s) (pcl s) (pcx s) v (fsbuf s) (fsclosed s) (delayed s) (files s) (store s) (stop_after s) (log s) (hbegun s).
+  Definition set_fsbuf (s : state) v := mk (pcr s) (pcl s) (pcx s) (sdst s) v (fsclosed s) (delayed s) (files s) (store s) (stop_after s) (log s) (hbegun s).
+  Definition set_fsclosed (s : state) v := mk (pcr s) (pcl s) (pcx s) (sdst s) (fsbuf s) v (delayed s) (files s) (store s) (stop_after s) (log s) (hbegun s).
+  Definition set_delayed (s : state) v := mk (pcr s) (pcl s) (pcx s) (sdst s) (fsbuf s) (fsclosed s) v (files s) (store s) (stop_after s) (log s) (hbegun s).
+  Definition set_files (s : state) v := mk (pcr s) (pcl s) (pcx s) (sdst s) (fsbuf s) (fsclosed s) (delayed s) v (store s) (stop_after s) (log s) (hbegun s).
+  Definition set_store (s : state) v := mk (pcr s) (pcl s) (pcx s) (sdst s) (fsbuf s) (fsclosed s) (delayed s) (files s) v (stop_after s) (log s) (hbegun s).
+  Definition set_stop_after (s : state) v := mk (pcr s) (pcl s) (pcx s) (sdst s) (fsbuf s) (fsclosed s) (delayed s) (files s) (store s) v (log s) (hbegun s).
+  Definition set_log (s : state) v := mk (pcr s) (pcl s) (pcx s) (sdst s) (fsbuf s) (fsclosed s) (delayed s) (files s) (store s) (stop_after s) v (hbegun s).
+  Definition set_hbegun (s : state) v := mk (pcr s) (pcl s) (pcx s) (sdst s) (fsbuf s) (fsclosed s) (delayed s) (files s) (store s) (stop_after s) (log s) v.
+
+
+  Definition init (store : list (list (nat * bool))) (stop_after : bool) : state :=
+    mk RSel LSel XIdle None None false false [] store stop_after [] 0.
+
+  Definition terminating (s : state) : bool :=
+    match sdst s with Some SCb | Some STerm | Some SDone => true | _ => false end.
+  Definition terminated (s : state) : bool := match sdst s with Some SDone => true | _ => false end.
+  Definition emit (s : state) e := set_log s (e :: log s).
+  Fixpoint upd {A} (l : list A) (k : nat) (f : A -> A) : list A :=
+    match l, k with
+    | [], _ => []
+    | x :: r, O => f x :: r
+    | x :: r, S k' => x :: upd r k' f
+    end.
+  Definition set_file (s : state) (k : nat) (f : fstate -> fstate) := set_files s (upd (files s) k f).
+
+  Definition sd_advance (s : state) : state :=
+    match sdst s with
+    | Some SClose => set_sdst s (Some SCb)
+    | Some SCb => set_sdst s (Some STerm)          (* a FileSource registers no callback *)
+    | Some STerm => set_sdst s (Some SDone)
+    | _ => s
+    end.
+
+  (* the fileStream arm of run()'s select *)
+  Definition recv_fs (s : state) : state :=
+    match fsbuf s with
+    | Some (FFile k) => set_pcr (set_fsbuf s None) (RRange k)
+    | Some FErr => set_pcr (set_fsbuf s None) RShut
+    | None => if fsclosed s then set_pcr s RShut else s
+    end.
+
+  Definition step_run (c : bool) (s : state) : state :=
+    match pcr s with
+    | RSel =>
+        let ready_fs := match fsbuf s with Some _ => true | None => fsclosed s end in
+        match ready_fs, terminating s with
+        | false, false => s
+        | false, true => set_pcr s RShut
+        | true, false => recv_fs s
+        | true, true => if c then set_pcr s RShut else recv_fs s
+        end
+    | RRange k =>
+        match nth_error (files s) k with
+        | None => s
+        | Some f =>
+            match f_slot f with
+            | Some (b, ok) => set_pcr (set_file s k (fun f => mkf (f_pc f) None (f_left f))) (RChk k b ok)
+            | None => match f_pc f with FClosed => set_pcr s RSel | _ => s end
+            end
+        end
+    | RChk k b ok =>
+        if terminating s then set_pcr s RShut
+        else set_hbegun (emit (set_pcr s (RInH k b ok)) (EHBegin 0 b)) (S (hbegun s))
+    | RInH k b ok => emit (set_pcr s (if ok then RRange k else RShut)) (EHEnd 0 b ok)
+    | RShut =>
+        match sdst s with
+        | None => set_sdst (set_pcr s RSdBusy) (Some SClose)
+        | Some _ => emit (set_pcr s RRet) ERet
+        end
+    | RSdBusy => let s1 := sd_advance s in if terminated s1 then emit (set_pcr s1 RRet) ERet else s1
+    | RRet => s
+    end.
+
+  Definition launcher_returns (s : state) : state := set_pcl (set_fsclosed s true) LDone.
+
+  Definition step_launch (c : bool) (s : state) : state :=
+    match pcl s with
+    | LSel =>
+        if terminating s then (if delayed s || c then launcher_returns s else set_pcl s LExists)
+        else set_pcl s LExists                                     (* the timer fires *)
+    | LExists =>
+        match store s with
+        | [] => set_pcl (set_delayed s true) LSel                  (* file does not exist (yet): retry later *)
+        | _ :: _ => set_pcl (set_delayed s false) LSend
+        end
+    | LSend =>
+        let send (s : state) :=
+          match store s with
+          | [] => s
+          | blocks :: r =>
+              set_pcl (set_store (set_files (set_fsbuf s (Some (FFile (length (files s)))))
+                                            (files s ++ [mkf FLaunched None blocks])) r) LGo
+          end in
+        match fsbuf s, terminating s with
+        | Some _, false => s                                       (* fileStream full: blocked *)
+        | Some _, true => launcher_returns s
+        | None, false => send s
+        | None, true => if c then launcher_returns s else send s
+        end
+    | LGo =>
+        let s1 := set_file s (length (files s) - 1) (fun f => mkf FOpening (f_slot f) (f_left f)) in
+        match store s1 with
+        | [] => if stop_after s1 then set_pcl s1 LStop else set_pcl s1 LSel
+        | _ :: _ => set_pcl s1 LSel
+        end
+    | LStop =>
+        match fsbuf s with
+        | Some _ => s                                              (* plain send: blocked (for ever if run() is gone) *)
+        | None => launcher_returns (set_fsbuf s (Some FErr))
+        end
+    | LDone => s
+    end.
+
+  Definition step_file (k : nat) (c : bool) (s : state) : state :=
+    match nth_error (files s) k with
+    | None => s
+    | Some f =>
+        match f_pc f with
+        | FLaunched => s
+        | FOpening => set_file s k (fun f => mkf FStreaming (f_slot f) (f_left f))
+        | FStreaming =>
+            let close (s : state) := set_file s k (fun f => mkf FClosed None (f_left f)) in
+            let work (s : state) :=
+              match f_left f with
+              | [] => close s                                       (* EOF *)
+              | x :: r => set_file s k (fun f => mkf FStreaming (Some x) r)
+              end in
+            match f_slot f, terminating s with
+            | Some _, false => s                                   (* run() has not taken the block yet *)
+            | Some _, true => close s
+            | None, false => work s
+            | None, true => if c then close s else work s
+            end
+        | FClosed => s
+        end
+    end.
+
+  Definition step_x (s : state) : state :=
+    match pcx s with
+    | XIdle => match sdst s with
+               | None => set_sdst (set_pcx s XBusy) (Some SClose)
+               | Some _ => set_pcx s XDone
+               end
+    | XBusy => let s1 := sd_advance s in if terminated s1 then set_pcx s1 XDone else s1
+    | XDone => s
+    end.
+
+  Definition step (s : state) (t : tid) : state :=
+    match t with
+    | TRun c => step_run c s | TLaunch c => step_launch c s | TFile k c => step_file k c s | TX => step_x s
+    end.
+
+  Definition returned (s : state) : bool := match pcr s with RRet => true | _ => false end.
+  Definition done (s : state) : bool := returned s && terminated s.
+End Fs.
